@@ -31,17 +31,19 @@ Section Doc.
   (* a line that read_pil_line returns as it is *)
   Theorem step_other prev r acc line :
     SInv prev r acc -> decode line = Ok SOther ->
-    read_one ct G None (TList line) acc r = (r, Ok (add_other acc line)) /\
+    (forall accR, read_one ct G None (TList line) accR r = (r, Ok (add_other accR line))) /\
     SInv (prev ++ [SOther]) r (add_other acc line).
   Proof.
     intros [C B] Hdec.
     assert (Ex : exec_stmt ct G line SOther r = (r, Ok (RLine line))) by reflexivity.
-    assert (Ef : file_obj ct G (RLine line) acc r = (r, Ok (add_other acc line, []))) by reflexivity.
-    pose proof (read_one_ok ct cd cs cc cm cr line SOther acc r r (RLine line) r _ Hdec Ex Ef) as E3.
-    cbn [fst snd] in E3.
     assert (Ecut : cut_roots (r_st r) (length (roots (r_st r))) [] = r_st r).
     { unfold cut_roots. cbn [map]. rewrite firstn_all, app_nil_r. destruct (r_st r); reflexivity. }
-    rewrite Ecut, (collect_id ct _ (si_sok _ _ _ _ _ _ _ _ _ C)), with_st_id in E3.
+    assert (E3 : forall accR, read_one ct G None (TList line) accR r = (r, Ok (add_other accR line))).
+    { intros accR.
+      assert (Ef : file_obj ct G (RLine line) accR r = (r, Ok (add_other accR line, []))) by reflexivity.
+      pose proof (read_one_ok ct cd cs cc cm cr line SOther accR r r (RLine line) r _ Hdec Ex Ef) as E3.
+      cbn [fst snd] in E3.
+      rewrite Ecut, (collect_id ct _ (si_sok _ _ _ _ _ _ _ _ _ C)), with_st_id in E3. exact E3. }
     split; [exact E3|]. split.
     - destruct C as [Csok Cattr Cheld Cdom Creg CrR Ckeys Cdecl CkR Ccplx]. constructor.
       + exact Csok.
@@ -102,50 +104,86 @@ Section Doc.
     end.
   Definition Consistent (ss : list stmt) : Prop := consistent_from [] ss.
 
+  (* what a statement adds to a result dictionary *)
+  Inductive delta2 := D1 (d : fdelta) | DOther (l : list tok).
+  Definition apply2 (d : delta2) (a : pilout) : pilout :=
+    match d with D1 d1 => apply_delta d1 a | DOther l => add_other a l end.
+
+  (* the shape of the addition for each kind of statement *)
+  Definition DeltaOf (s : stmt) (line : list tok) (acc : pilout) (d : delta2) : Prop :=
+    match s with
+    | SDl x _ | SSl x _ _ => exists i j, d = D1 (FDom x i j)
+    | SComp n _ => exists i, d = D1 (FKind KindS n i)
+    | SSC n _ _ | SKer n _ _ _ => exists i, d = D1 (FKind KindC n i)
+    | SMac n _ => exists i, d = D1 (FKind KindM n i)
+    | SRxn ri => exists st i, d = D1 (FRxn (is_cond (ri_type ri)) st i) /\
+                   (forall l, (forall j, In j l -> In j (po_det acc ++ po_con acc)) -> set_add st i l = l ++ [i])
+    | SOther => d = DOther line
+    end.
+
+  Lemma other_apply_delta d a : po_other (apply_delta d a) = po_other a.
+  Proof. destruct d as [x i j|k n i|cond st i]; cbn [apply_delta]; [reflexivity | apply other_with | destruct cond; reflexivity]. Qed.
+
+  (* one statement, filed into any result dictionary *)
+  Theorem step_stmt_gen prev r acc line s :
+    SInv prev r acc -> decode line = Ok s -> adm prev s ->
+    exists r' d, (forall accR, read_one ct G None (TList line) accR r = (r', Ok (apply2 d accR))) /\
+      SInv (prev ++ [s]) r' (apply2 d acc) /\ DeltaOf s line acc d /\
+      (forall d1, d = D1 d1 -> Later r acc r' (apply_delta d1 acc)) /\ (s = SOther -> r' = r).
+  Proof.
+    intros SI Hdec Ha.
+    destruct s as [x l|x sq chk|n ds|n ss sst|n names sst conc|n xs|ri|]; cbn [adm] in Ha.
+    - destruct Ha as [H1 [H2 [Hp [H3 H4]]]].
+      destruct (step_dom ct cd cs cc cm cr CO PL prev r acc line (SDl x l) x l None SI Hdec) as [r' [i [j [E [S1 L1]]]]]; auto.
+      + left. auto.
+      + exists r', (D1 (FDom x i j)). split; [exact E|]. split; [exact S1|]. split; [cbn; eauto|].
+        split; [intros d1 Ed; injection Ed as <-; exact L1 | discriminate].
+    - destruct Ha as [H1 [H2 [Hp [H3 [H4 [sq' H5]]]]]].
+      destruct (step_dom ct cd cs cc cm cr CO PL prev r acc line (SSl x sq chk) x (Z.of_nat (length sq)) (Some (sq, sq'))
+                  SI Hdec) as [r' [i [j [E [S1 L1]]]]]; auto.
+      + right. exists sq, chk, sq'. auto 10.
+      + lia.
+      + exists r', (D1 (FDom x i j)). split; [exact E|]. split; [exact S1|]. split; [cbn; eauto|].
+        split; [intros d1 Ed; injection Ed as <-; exact L1 | discriminate].
+    - destruct Ha as [H1 [Hu [H2 [H3 H4]]]].
+      destruct (step_strand ct cd cs cc cm cr CO PL prev r acc line n ds SI Hdec H1 Hu H2 H3 H4) as [r' [i [E [S1 L1]]]].
+      exists r', (D1 (FKind KindS n i)). split; [exact E|]. split; [exact S1|]. split; [cbn; eauto|].
+      split; [intros d1 Ed; injection Ed as <-; exact L1 | discriminate].
+    - destruct Ha as [H1 [H2 [H3 [names [cdict [cn [e [H4 [H5 [H6 [H7 H8]]]]]]]]]]].
+      destruct (step_ssc ct cd cs cc cm cr CO PL prev r acc line n ss sst names cdict cn e SI Hdec H1 H2 H3 H4 H5 H6 H7 H8)
+        as [r' [i [E [S1 L1]]]].
+      exists r', (D1 (FKind KindC n i)). split; [exact E|]. split; [exact S1|]. split; [cbn; eauto|].
+      split; [intros d1 Ed; injection Ed as <-; exact L1 | discriminate].
+    - destruct Ha as [H1 [H2 [names' [sst' [cdict [cn [e [H3 [H4 [H5 H6]]]]]]]]]].
+      destruct (step_kernel ct cd cs cc cm cr CO PL prev r acc line n names sst conc names' sst' cdict cn e SI Hdec H1 H2 H3 H4 H5 H6)
+        as [r' [i [E [S1 L1]]]].
+      exists r', (D1 (FKind KindC n i)). split; [exact E|]. split; [exact S1|]. split; [cbn; eauto|].
+      split; [intros d1 Ed; injection Ed as <-; exact L1 | discriminate].
+    - destruct Ha as [H1 [H2 [H3 [H4 H5]]]].
+      destruct (step_macro ct cd cs cc cm cr CO PL prev r acc line n xs SI Hdec H1 H2 H3 H4 H5) as [r' [i [E [S1 L1]]]].
+      exists r', (D1 (FKind KindM n i)). split; [exact E|]. split; [exact S1|]. split; [cbn; eauto|].
+      split; [intros d1 Ed; injection Ed as <-; exact L1 | discriminate].
+    - destruct Ha as [[k H1] [H2 [H3 [H4 H5]]]].
+      destruct (step_rxn ct cd cs cc cm cr CO PL prev r acc line ri k SI Hdec H1 H2 H3 H4 H5) as [r' [i [E [S1 [L1 Esa]]]]].
+      exists r', (D1 (FRxn (is_cond (ri_type ri)) (r_st r') i)). split; [exact E|]. split; [exact S1|].
+      split; [cbn; eauto|]. split; [intros d1 Ed; injection Ed as <-; exact L1 | discriminate].
+    - destruct (step_other prev r acc line SI Hdec) as [H1 H2].
+      exists r, (DOther line). split; [exact H1|]. split; [exact H2|]. split; [reflexivity|]. split; [discriminate | reflexivity].
+  Qed.
+
   (* one statement *)
   Theorem step_stmt prev r acc line s :
     SInv prev r acc -> decode line = Ok s -> adm prev s ->
     exists r' acc', read_one ct G None (TList line) acc r = (r', Ok acc') /\ SInv (prev ++ [s]) r' acc' /\
       po_other acc' = po_other acc ++ match s with SOther => [line] | _ => [] end.
   Proof.
-    intros SI Hdec Ha.
-    assert (Fin : forall r' acc',
-              (read_one ct G None (TList line) acc r = (r', Ok acc') /\ SInv (prev ++ [s]) r' acc' /\ Later r acc r' acc') ->
-              s <> SOther ->
-              exists r' acc', read_one ct G None (TList line) acc r = (r', Ok acc') /\ SInv (prev ++ [s]) r' acc' /\
-                po_other acc' = po_other acc ++ match s with SOther => [line] | _ => [] end).
-    { intros r' acc' [H1 [H2 H3]] Hs. exists r', acc'. split; [exact H1|]. split; [exact H2|].
-      rewrite (lt_other _ _ _ _ H3). destruct s; try (rewrite app_nil_r; reflexivity). congruence. }
-    destruct s as [x l|x sq chk|n ds|n ss sst|n names sst conc|n xs|ri|]; cbn [adm] in Ha.
-    - destruct Ha as [H1 [H2 [Hp [H3 H4]]]].
-      destruct (step_dom ct cd cs cc cm cr CO PL prev r acc line (SDl x l) x l None SI Hdec) as [r' [acc' H]]; auto.
-      + left. auto.
-      + eapply Fin; [exact H | discriminate].
-    - destruct Ha as [H1 [H2 [Hp [H3 [H4 [sq' H5]]]]]].
-      destruct (step_dom ct cd cs cc cm cr CO PL prev r acc line (SSl x sq chk) x (Z.of_nat (length sq)) (Some (sq, sq'))
-                  SI Hdec) as [r' [acc' H]]; auto.
-      + right. exists sq, chk, sq'. auto 10.
-      + lia.
-      + eapply Fin; [exact H | discriminate].
-    - destruct Ha as [H1 [Hu [H2 [H3 H4]]]].
-      destruct (step_strand ct cd cs cc cm cr CO PL prev r acc line n ds SI Hdec H1 Hu H2 H3 H4) as [r' [acc' H]].
-      eapply Fin; [exact H | discriminate].
-    - destruct Ha as [H1 [H2 [H3 [names [cdict [cn [e [H4 [H5 [H6 [H7 H8]]]]]]]]]]].
-      destruct (step_ssc ct cd cs cc cm cr CO PL prev r acc line n ss sst names cdict cn e SI Hdec H1 H2 H3 H4 H5 H6 H7 H8)
-        as [r' [acc' H]].
-      eapply Fin; [exact H | discriminate].
-    - destruct Ha as [H1 [H2 [names' [sst' [cdict [cn [e [H3 [H4 [H5 H6]]]]]]]]]].
-      destruct (step_kernel ct cd cs cc cm cr CO PL prev r acc line n names sst conc names' sst' cdict cn e SI Hdec H1 H2 H3 H4 H5 H6)
-        as [r' [acc' H]].
-      eapply Fin; [exact H | discriminate].
-    - destruct Ha as [H1 [H2 [H3 [H4 H5]]]].
-      destruct (step_macro ct cd cs cc cm cr CO PL prev r acc line n xs SI Hdec H1 H2 H3 H4 H5) as [r' [acc' H]].
-      eapply Fin; [exact H | discriminate].
-    - destruct Ha as [[k H1] [H2 [H3 [H4 H5]]]].
-      destruct (step_rxn ct cd cs cc cm cr CO PL prev r acc line ri k SI Hdec H1 H2 H3 H4 H5) as [r' [acc' H]].
-      eapply Fin; [exact H | discriminate].
-    - destruct (step_other prev r acc line SI Hdec) as [H1 H2].
-      exists r, (add_other acc line). split; [exact H1|]. split; [exact H2 | reflexivity].
+    intros SI Hdec Ha. destruct (step_stmt_gen prev r acc line s SI Hdec Ha) as [r' [d [E [S1 [Hd _]]]]].
+    exists r', (apply2 d acc). split; [apply E|]. split; [exact S1|].
+    destruct s; cbn [DeltaOf] in Hd;
+      try (destruct Hd as [i [j ->]]; cbn [apply2]; rewrite other_apply_delta, app_nil_r; reflexivity);
+      try (destruct Hd as [i ->]; cbn [apply2]; rewrite other_apply_delta, app_nil_r; reflexivity).
+    - destruct Hd as [st [i [-> _]]]. cbn [apply2]. rewrite other_apply_delta, app_nil_r. reflexivity.
+    - subst d. reflexivity.
   Qed.
 
   (* the lines that are returned as they are *)
